@@ -299,6 +299,12 @@ def inv_sequence(ctx, P, cg):
         cex = F.counterexample(fb, F.parse("TRICKLE"))
         ctx.ob("SendMessages/last-inv-sequence-guard@L%s" % s.line, "MPT", "m_last_inv_sequence advances only when transaction announcements are being sent to the peer (trickle time reached)",
                cex is None and bool(flags), s.where, None if cex is None else {"counterexample": cex})
+        # ... and only when something is actually announced: the peer asked for the mempool (BIP35), or the to-send queue is non-empty
+        fb2, _, _ = F.bind_atoms(s.formula(subst), {"BIP35": re.compile(r".*m_send_mempool"), "NOTHING": re.compile(r"(invs|.*m_tx_inventory_to_send)\.empty\(\)")})
+        cex2 = F.counterexample(fb2, F.parse("BIP35 || !NOTHING"))
+        ctx.ob("SendMessages/last-inv-sequence-announces@L%s" % s.line, "MPT", "m_last_inv_sequence advances only when announcements are really sent: in answer to a BIP35 mempool "
+               "request or with a non-empty to-send queue (a timer tick with nothing to announce must not make newer transactions requestable)", cex2 is None, s.where,
+               None if cex2 is None else {"counterexample": cex2})
 
 
 def lambda_calls(P, e, q):
